@@ -133,16 +133,18 @@ Qed.
 
 (* THE ZONE-FILE PARSER.  [full_run] = the include machine whose per-file parser is the model of
    <zone_file::Parser as Iterator>::next of C24 (Model/ZfParser.v) on the files' octets;
-   [full_expand_root] = the structural expansion with the same parser.  For every file system in
+   [full_expand_root] = the structural expansion with the same parser.  A path names a regular file
+   with its content (FFile) or a directory (FDir: File::open succeeds, the first read fails — the
+   per-file parser reports an I/O error, GeneralIo).  For every file system in
    which every file that can be opened has a parent directory (the assumption stated in
    compute_path's comment), every depth limit, root path and root content: *)
 Theorem c25_full_stack_eq_expand :
-  forall (fs : path -> option bytes) (max_depth : nat) (p0 : path) (content0 : bytes),
+  forall (fs : path -> option fobj) (max_depth : nat) (p0 : path) (o0 : fobj),
   (forall p c, fs p = Some c -> has_parent p) -> has_parent p0 ->
   exists f0, forall fuel, f0 <= fuel ->
-    full_run fs max_depth fuel [(p0, 0%N, parser_new content0)] =
-    (fst (full_expand_root fs max_depth p0 content0),
-     gfinal_of _ _ _ _ _ _ (snd (full_expand_root fs max_depth p0 content0))).
+    full_run fs max_depth fuel [(p0, 0%N, full_root o0)] =
+    (fst (full_expand_root fs max_depth p0 o0),
+     gfinal_of _ _ _ _ _ _ (snd (full_expand_root fs max_depth p0 o0))).
 Proof. intros fs d p0 c0 H1 H2. exact (full_run_eq_expand fs H1 d p0 c0 H2). Qed.
 
 (* ... the run ends (for all large fuel) with the end of the root file or with an error of
@@ -151,12 +153,12 @@ Proof. intros fs d p0 c0 H1 H2. exact (full_run_eq_expand fs H1 d p0 c0 H2). Qed
    valid in the sense of C24 (good absolute owner, type not NULL/OPT/TSIG, RDATA accepted by the
    model of Rdata::validate): C24 holds across include boundaries. *)
 Theorem c25_full_total_valid :
-  forall (fs : path -> option bytes) (max_depth : nat) (p0 : path) (content0 : bytes),
+  forall (fs : path -> option fobj) (max_depth : nat) (p0 : path) (o0 : fobj),
   (forall p c, fs p = Some c -> has_parent p) -> has_parent p0 ->
   exists f0, forall fuel, f0 <= fuel ->
     exists items,
-      (full_run fs max_depth fuel [(p0, 0%N, parser_new content0)] = (items, FDone _ _) \/
-       exists p e, full_run fs max_depth fuel [(p0, 0%N, parser_new content0)] = (items, FBad _ _ p e)) /\
+      (full_run fs max_depth fuel [(p0, 0%N, full_root o0)] = (items, FDone _ _) \/
+       exists p e, full_run fs max_depth fuel [(p0, 0%N, full_root o0)] = (items, FBad _ _ p e)) /\
       Forall (fun it : full_item =>
                 good_name (rr_owner (snd it)) /\ ~ In (rr_type (snd it)) forbidden_types /\
                 rdata_validate (rr_class (snd it)) (rr_type (snd it)) (rr_rdata (snd it)) = Ok true) items.
@@ -170,24 +172,39 @@ Proof. exact full_run_total_valid. Qed.
    was — with ITS OWN origin and the previous owner, previous TTL, previous class and default TTL
    ($TTL) the included file ended with. *)
 Theorem c25_full_include_boundary :
-  forall (fs : path -> option bytes) d chain p k s n ip org s' newp content,
-  full_pnext s = PInc _ _ _ _ _ n ip org s' -> compute_path p ip = Some newp -> fs newp = Some content ->
+  forall (fs : path -> option fobj) d chain p k s n ip org s' newp content,
+  full_pnext s = PInc _ _ _ _ _ n ip org (FP s') -> compute_path p ip = Some newp -> fs newp = Some (FFile content) ->
   full_expand fs (S d) chain p (S k) s =
-  (let child := mkParser false (rd_new content)
+  (let child := FP (mkParser false (rd_new content)
                   (mkCtx (match org with Some o => Some o | None => ZfParser.c_origin (ps_ctx s') end)
                          (c_prev_owner (ps_ctx s')) (c_prev_ttl (ps_ctx s')) (c_prev_class (ps_ctx s'))
-                         (c_default_ttl (ps_ctx s'))) in
+                         (c_default_ttl (ps_ctx s')))) in
    let '(it, o) := full_expand fs d (chain ++ [(p, n)]) newp (S (full_size child)) child in
    match o with
    | GCtx _ _ _ _ _ _ cend =>
        let '(it', o') := full_expand fs (S d) chain p k
-                           (mkParser (ps_error s') (ps_rd s')
+                           (FP (mkParser (ps_error s') (ps_rd s')
                               (mkCtx (ZfParser.c_origin (ps_ctx s')) (c_owner _ _ _ _ cend) (c_ttl _ _ _ _ cend)
-                                     (c_class _ _ _ _ cend) (c_dttl _ _ _ _ cend))) in
+                                     (c_class _ _ _ _ cend) (c_dttl _ _ _ _ cend)))) in
        (it ++ it', o')
    | bad => (it, bad)
    end).
 Proof. exact full_expand_include. Qed.
+
+(* (the parser handed back at an $INCLUDE line is always one on a readable file, so the previous
+   theorem covers every followed include of a regular file) and an $INCLUDE that names a DIRECTORY is
+   the included "file"'s I/O error, reported against the directory's path; nothing resumes. *)
+Theorem c25_full_include_directory :
+  forall (fs : path -> option fobj) d chain p k s n ip org s' newp,
+  full_pnext s = PInc _ _ _ _ _ n ip org s' -> compute_path p ip = Some newp ->
+  (exists q, s' = FP q) /\
+  (fs newp = Some FDir ->
+   full_expand fs (S d) chain p (S k) s = ([], GBad _ _ _ _ _ _ newp (ISyntax _ _ EIo))).
+Proof.
+  intros fs d chain p k s n ip org s' newp H1 H2. split.
+  - eapply full_pnext_inc_fp. exact H1.
+  - intros H3. eapply full_expand_include_dir; eassumption.
+Qed.
 
 (* Non-vacuity on real text: the root sets origin e. and $TTL 5 and includes s/a with origin o.;
    the included file has a relative owner (x -> x.o.), then $TTL 60, $ORIGIN q. and y (-> y.q.);
@@ -206,9 +223,10 @@ $TTL 60
 $ORIGIN q.
 y A 1.1.1.1
 ".
-Definition exf (p : path) : option bytes :=
-  if list_eq_dec N.eq_dec p (octets "r/z") then Some exf_root
-  else if list_eq_dec N.eq_dec p (octets "r/s/a") then Some exf_inc else None.
+Definition exf (p : path) : option fobj :=
+  if list_eq_dec N.eq_dec p (octets "r/z") then Some (FFile exf_root)
+  else if list_eq_dec N.eq_dec p (octets "r/s/a") then Some (FFile exf_inc)
+  else if list_eq_dec N.eq_dec p (octets "r/s/../s") then Some FDir else None.
 Definition exf_view (x : list full_item * full_final) :=
   (map (fun it : full_item => (fst it, n_wire (rr_owner (snd it)), rr_ttl (snd it), rr_rdata (snd it))) (fst x), snd x).
 
@@ -220,10 +238,13 @@ Example c25_full_example :
          (octets "r/z", 5, [1; 119; 1; 101; 0], 60, [1; 2; 3; 5])]%N, FDone _ _) /\
   option_map exf_view (full_open_and_run exf 0 60 (octets "r/z")) =
   Some ([], FBad _ _ (octets "r/z") (ITooDeep _ _ 3%N [(octets "r/z", 3%N)])) /\
-  full_expand_root exf 1 (octets "r/z") exf_root =
-  (fst (full_run exf 1 60 [(octets "r/z", 0%N, parser_new exf_root)]),
-   snd (full_expand_root exf 1 (octets "r/z") exf_root)).
-Proof. split; [|split]; vm_compute; reflexivity. Qed.
+  full_expand_root exf 1 (octets "r/z") (FFile exf_root) =
+  (fst (full_run exf 1 60 [(octets "r/z", 0%N, full_root (FFile exf_root))]),
+   snd (full_expand_root exf 1 (octets "r/z") (FFile exf_root))) /\
+  (* a file that includes the directory it lies in *)
+  snd (full_run exf 1 60 [(octets "r/s/a", 0%N, full_root (FFile (octets "$INCLUDE ../s")))]) =
+  FBad _ _ (octets "r/s/../s") (ISyntax _ _ EIo).
+Proof. split; [|split; [|split]]; vm_compute; reflexivity. Qed.
 
 Print Assumptions c25_stack_eq_expand.
 Print Assumptions c25_terminates.
@@ -234,4 +255,5 @@ Print Assumptions c25_iter_depth.
 Print Assumptions c25_full_stack_eq_expand.
 Print Assumptions c25_full_total_valid.
 Print Assumptions c25_full_include_boundary.
+Print Assumptions c25_full_include_directory.
 Print Assumptions c25_lines_are_iter.
